@@ -99,25 +99,43 @@ func (f *c17Funding) multiBatch(entries map[order.Nonce]*auctioneerrpc.MatchedOr
 	return order.ParseRPCBatch(&got)
 }
 
-// execBatch runs the real PrepChannelFunding of the taker and the real
-// BatchChannelSetup of every maker over one whole batch.
-func (f *c17Funding) execBatch(c *c17BatchCase) {
-	r := f.r
-	rng := rand.New(rand.NewSource(c.Seed))
-	r.Evaluations++
-	r.Count("batch/cases")
-	unit := int64(order.BaseSupplyUnit)
-	taker := c17NewParty("taker", 2, f.db)
-	makers := []*c17Party{c17NewParty("makerA", 1, f.db), c17NewParty("makerB", 3, f.db)}
-	lease := []uint32{144, 2016, 4032, rng.Uint32()}[rng.Intn(4)]
-	hint := []uint32{0, 700000 + uint32(rng.Intn(300000)), rng.Uint32()}[rng.Intn(3)]
-	acctKey := f.acctKey.SerializeCompressed()
+// c17Market is one taker with some bids, two maker nodes with some asks and
+// the matched pairs; a proposal is one batch transaction + height hint for it.
+type c17Market struct {
+	f      *c17Funding
+	taker  *c17Party
+	makers []*c17Party
+	lease  uint32
+	asks   []*c17BOrder
+	bids   []*c17BOrder
+	pairs  []c17BPair
 
+	bidByNonce map[order.Nonce]*order.Bid
+}
+
+type c17Proposal struct {
+	pairs  []c17BPair // subset of the market's pairs
+	tx     *wire.MsgTx
+	txStr  string
+	hint   uint32
+	batchT *order.Batch
+	batchM []*order.Batch // per maker, nil when the maker has no match
+}
+
+func (f *c17Funding) newMarket(rng *rand.Rand, maxBids int, sidecars bool) *c17Market {
+	unit := int64(order.BaseSupplyUnit)
+	m := &c17Market{f: f, bidByNonce: map[order.Nonce]*order.Bid{}}
+	m.taker = c17NewParty("taker", 2, f.db)
+	m.makers = []*c17Party{c17NewParty("makerA", 1, f.db), c17NewParty("makerB", 3, f.db)}
+	m.lease = []uint32{144, 2016, 4032, rng.Uint32()}[rng.Intn(4)]
+	acctKey := f.acctKey.SerializeCompressed()
+	versions := []order.Version{order.VersionChannelType, order.VersionChannelType, order.VersionChannelType,
+		order.VersionSidecarChannel, order.VersionSelfChanBalance, order.VersionDefault}
 	newKit := func(idx uint32) *order.Kit {
 		var n order.Nonce
 		rng.Read(n[:])
 		k := order.NewKit(n)
-		k.LeaseDuration = lease
+		k.LeaseDuration = m.lease
 		k.ChannelType = order.ChannelType(rng.Intn(3))
 		k.MultiSigKeyLocator = keychain.KeyLocator{Family: keychain.KeyFamilyMultiSig, Index: idx}
 		k.Amt = btcutil.Amount(100 * unit)
@@ -126,12 +144,10 @@ func (f *c17Funding) execBatch(c *c17BatchCase) {
 		k.MinUnitsMatch = 1
 		k.FixedRate = 100
 		k.MaxBatchFeeRate = 253
-		k.Version = order.VersionChannelType
+		k.Version = versions[rng.Intn(len(versions))]
 		copy(k.AcctKey[:], acctKey)
 		return k
 	}
-	// ---- orders
-	var asks, bids []*c17BOrder
 	nA := 1 + rng.Intn(3)
 	nB := rng.Intn(3)
 	for i := 0; i < nA+nB; i++ {
@@ -141,11 +157,11 @@ func (f *c17Funding) execBatch(c *c17BatchCase) {
 		}
 		k := newKit(uint32(100 + i + 10*rng.Intn(50)))
 		o := &c17BOrder{ask: &order.Ask{Kit: *k}, owner: owner}
-		o.params = &order.ServerOrderParams{NodePubkey: makers[owner].node33, Addrs: []net.Addr{f.addr}}
-		copy(o.params.MultiSigKey[:], c17KeyFor(makers[owner].wallet.seed, 0, k.MultiSigKeyLocator.Index).SerializeCompressed())
-		asks = append(asks, o)
+		o.params = &order.ServerOrderParams{NodePubkey: m.makers[owner].node33, Addrs: []net.Addr{f.addr}}
+		copy(o.params.MultiSigKey[:], c17KeyFor(m.makers[owner].wallet.seed, 0, k.MultiSigKeyLocator.Index).SerializeCompressed())
+		m.asks = append(m.asks, o)
 	}
-	nBids := 1 + rng.Intn(3)
+	nBids := 1 + rng.Intn(maxBids)
 	for j := 0; j < nBids; j++ {
 		k := newKit(uint32(500 + j + 10*rng.Intn(50)))
 		b := &order.Bid{Kit: *k, UnannouncedChannel: rng.Intn(2) == 0, ZeroConfChannel: rng.Intn(2) == 0}
@@ -153,12 +169,12 @@ func (f *c17Funding) execBatch(c *c17BatchCase) {
 			b.SelfChanBalance = btcutil.Amount(unit * int64(1+rng.Intn(5)))
 		}
 		o := &c17BOrder{bid: b}
-		o.params = &order.ServerOrderParams{NodePubkey: taker.node33}
-		copy(o.params.MultiSigKey[:], c17KeyFor(taker.wallet.seed, 0, k.MultiSigKeyLocator.Index).SerializeCompressed())
-		if rng.Intn(6) == 0 {
+		o.params = &order.ServerOrderParams{NodePubkey: m.taker.node33}
+		copy(o.params.MultiSigKey[:], c17KeyFor(m.taker.wallet.seed, 0, k.MultiSigKeyLocator.Index).SerializeCompressed())
+		if sidecars && rng.Intn(6) == 0 {
 			// a sidecar bid the taker only provides: channel goes elsewhere
 			b.Kit.ChannelType = order.ChannelTypePeerDependent
-			t, _ := sidecar.NewTicket(100*btcutil.Amount(unit), b.SelfChanBalance, lease, f.acctKey, false,
+			t, _ := sidecar.NewTicket(100*btcutil.Amount(unit), b.SelfChanBalance, m.lease, f.acctKey, false,
 				b.UnannouncedChannel, b.ZeroConfChannel)
 			t.State = sidecar.StateOrdered
 			t.Offer.SigOfferDigest = test.NewSignatureFromInt(3, 5)
@@ -169,191 +185,224 @@ func (f *c17Funding) execBatch(c *c17BatchCase) {
 			copy(o.params.NodePubkey[:], t.Recipient.NodePubKey.SerializeCompressed())
 			copy(o.params.MultiSigKey[:], t.Recipient.MultiSigPubKey.SerializeCompressed())
 			o.providerOnly = true
-			r.Count("batch/provider-bid")
+			f.r.Count("batch/provider-bid")
 		}
-		bids = append(bids, o)
+		m.bids = append(m.bids, o)
+		m.bidByNonce[b.Nonce()] = b
 	}
-	for _, o := range asks {
+	for _, o := range m.asks {
 		o.rpc, _ = auctioneer.VerifC17SubmitCapture(o.ask, o.params)
+		_ = f.db.SubmitOrder(o.ask)
 	}
-	for _, o := range bids {
+	for _, o := range m.bids {
 		o.rpc, _ = auctioneer.VerifC17SubmitCapture(o.bid, o.params)
 	}
-	// ---- matches: every bid is matched with 1..3 distinct asks
-	var pairs []c17BPair
-	for j := range bids {
-		perm := rng.Perm(len(asks))
+	// every bid is matched with 1..3 distinct asks
+	for j := range m.bids {
+		perm := rng.Perm(len(m.asks))
 		n := 1 + rng.Intn(3)
-		if n > len(asks) {
-			n = len(asks)
+		if n > len(m.asks) {
+			n = len(m.asks)
 		}
 		for _, i := range perm[:n] {
 			p := c17BPair{ask: i, bid: j, units: uint32(1 + rng.Intn(20))}
-			p.commit = c17ExpectedCommit(uint8(asks[i].ask.ChannelType), uint8(bids[j].bid.ChannelType))
-			w, t := c17Scripts(asks[i].params.MultiSigKey[:], bids[j].params.MultiSigKey[:], int64(p.units)*unit)
+			p.commit = c17ExpectedCommit(uint8(m.asks[i].ask.ChannelType), uint8(m.bids[j].bid.ChannelType))
+			w, t := c17Scripts(m.asks[i].params.MultiSigKey[:], m.bids[j].params.MultiSigKey[:], int64(p.units)*unit)
 			sh := w
 			if p.commit == lnrpc.CommitmentType_SIMPLE_TAPROOT {
 				sh = t
 			}
 			p.script, _ = hex.DecodeString(sh)
-			pairs = append(pairs, p)
+			m.pairs = append(m.pairs, p)
 		}
 	}
-	// ---- batch tx: all funding outputs + fillers, shuffled
+	m.taker.base.peers = [][33]byte{m.makers[0].node33, m.makers[1].node33}
+	return m
+}
+
+// propose builds one proposal of the batch: a transaction with all funding
+// outputs (and fillers) in random order and the prepare message of each
+// trader, parsed by the real ParseRPCBatch.
+func (m *c17Market) propose(rng *rand.Rand, pairs []c17BPair, hint uint32, salt uint32) (*c17Proposal, error) {
+	unit := int64(order.BaseSupplyUnit)
+	p := &c17Proposal{pairs: pairs, hint: hint}
 	tx := wire.NewMsgTx(2)
-	tx.AddTxIn(&wire.TxIn{PreviousOutPoint: wire.OutPoint{Index: uint32(c.Seed)}})
+	tx.AddTxIn(&wire.TxIn{PreviousOutPoint: wire.OutPoint{Index: salt}})
 	var outs []*wire.TxOut
-	for _, p := range pairs {
-		outs = append(outs, wire.NewTxOut(int64(p.units)*unit+int64(bids[p.bid].bid.SelfChanBalance), p.script))
+	for _, pr := range pairs {
+		outs = append(outs, wire.NewTxOut(int64(pr.units)*unit+int64(m.bids[pr.bid].bid.SelfChanBalance), pr.script))
 	}
 	for i := 0; i < rng.Intn(3); i++ {
-		outs = append(outs, wire.NewTxOut(int64(1000+i), []byte{0x00, 0x14, byte(i), 2, 3, 4, 5, 6, 7, 8, 9, 10, 11, 12, 13, 14, 15, 16, 17, 18, 19, 20}))
+		outs = append(outs, wire.NewTxOut(int64(1000+i), []byte{0x00, 0x14, byte(i), byte(salt), 3, 4, 5, 6, 7, 8, 9, 10, 11, 12, 13, 14, 15, 16, 17, 18, 19, 20}))
 	}
 	rng.Shuffle(len(outs), func(a, b int) { outs[a], outs[b] = outs[b], outs[a] })
 	for _, o := range outs {
 		tx.AddTxOut(o)
 	}
-	txid := tx.TxHash()
-	txStr := c17FmtTx(tx)
-
-	// ---- the taker's and the makers' prepare messages
+	p.tx, p.txStr = tx, c17FmtTx(tx)
 	takerEntries := map[order.Nonce]*auctioneerrpc.MatchedOrder{}
 	makerEntries := []map[order.Nonce]*auctioneerrpc.MatchedOrder{{}, {}}
-	for _, p := range pairs {
-		bn, an := bids[p.bid].bid.Nonce(), asks[p.ask].ask.Nonce()
+	for _, pr := range pairs {
+		bn, an := m.bids[pr.bid].bid.Nonce(), m.asks[pr.ask].ask.Nonce()
 		if takerEntries[bn] == nil {
 			takerEntries[bn] = &auctioneerrpc.MatchedOrder{}
 		}
 		takerEntries[bn].MatchedAsks = append(takerEntries[bn].MatchedAsks,
-			&auctioneerrpc.MatchedAsk{Ask: asks[p.ask].rpc.GetAsk(), UnitsFilled: p.units})
-		me := makerEntries[asks[p.ask].owner]
+			&auctioneerrpc.MatchedAsk{Ask: m.asks[pr.ask].rpc.GetAsk(), UnitsFilled: pr.units})
+		me := makerEntries[m.asks[pr.ask].owner]
 		if me[an] == nil {
 			me[an] = &auctioneerrpc.MatchedOrder{}
 		}
 		me[an].MatchedBids = append(me[an].MatchedBids,
-			&auctioneerrpc.MatchedBid{Bid: bids[p.bid].rpc.GetBid(), UnitsFilled: p.units})
+			&auctioneerrpc.MatchedBid{Bid: m.bids[pr.bid].rpc.GetBid(), UnitsFilled: pr.units})
 	}
-	batchT, err := f.multiBatch(takerEntries, lease, tx, hint)
-	if err != nil {
-		r.Count("batch/parse-error")
-		return
+	var err error
+	if p.batchT, err = m.f.multiBatch(takerEntries, m.lease, tx, hint); err != nil {
+		return nil, err
 	}
+	p.batchM = make([]*order.Batch, len(m.makers))
+	for mi := range m.makers {
+		if len(makerEntries[mi]) == 0 {
+			continue
+		}
+		if p.batchM[mi], err = m.f.multiBatch(makerEntries[mi], m.lease, tx, hint); err != nil {
+			return nil, err
+		}
+	}
+	return p, nil
+}
 
-	// model-side encoding of a parsed batch from one trader's view
-	encode := func(b *order.Batch, own func(order.Nonce) order.Order) (string, [][2]interface{}) {
-		var nonces []order.Nonce
-		for n := range b.MatchedOrders {
-			nonces = append(nonces, n)
-		}
-		sort.Slice(nonces, func(i, j int) bool { return bytes.Compare(nonces[i][:], nonces[j][:]) < 0 })
-		var sb strings.Builder
-		var all [][2]interface{}
-		fmt.Fprintf(&sb, "%d", len(nonces))
-		for _, n := range nonces {
-			o := own(n)
-			ms := b.MatchedOrders[n]
-			fmt.Fprintf(&sb, " %s %d", c17FmtOrder(o), len(ms))
-			for _, m := range ms {
-				fmt.Fprintf(&sb, " %s", c17FmtMatched(m))
-				all = append(all, [2]interface{}{o, m})
-			}
-		}
-		return sb.String(), all
+// encode renders a parsed batch from one trader's view for the model.
+func c17EncodeBatch(b *order.Batch, own func(order.Nonce) order.Order) (string, [][2]interface{}) {
+	var nonces []order.Nonce
+	for n := range b.MatchedOrders {
+		nonces = append(nonces, n)
 	}
-	envFor := func(p *c17Party, all [][2]interface{}) string {
-		var dk, fs []string
-		seenDK := map[string]bool{}
-		for _, e := range all {
-			o, m := e[0].(order.Order), e[1].(*order.MatchedOrder)
-			loc := o.Details().MultiSigKeyLocator
-			key := c17KeyFor(p.wallet.seed, uint32(loc.Family), loc.Index).SerializeCompressed()
-			d := fmt.Sprintf("%d/%d/%s", uint32(loc.Family), loc.Index, c17Hex(key))
-			if !seenDK[d] {
-				seenDK[d] = true
-				dk = append(dk, d)
-			}
-			w, t := c17Scripts(key, m.MultiSigKey[:], int64(m.UnitsFilled.ToSatoshis()))
-			fs = append(fs, fmt.Sprintf("0/%s/%s/%s", c17Hex(key), c17Hex(m.MultiSigKey[:]), w),
-				fmt.Sprintf("1/%s/%s/%s", c17Hex(key), c17Hex(m.MultiSigKey[:]), t))
+	sort.Slice(nonces, func(i, j int) bool { return bytes.Compare(nonces[i][:], nonces[j][:]) < 0 })
+	var sb strings.Builder
+	var all [][2]interface{}
+	fmt.Fprintf(&sb, "%d", len(nonces))
+	for _, n := range nonces {
+		o := own(n)
+		ms := b.MatchedOrders[n]
+		fmt.Fprintf(&sb, " %s %d", c17FmtOrder(o), len(ms))
+		for _, mo := range ms {
+			fmt.Fprintf(&sb, " %s", c17FmtMatched(mo))
+			all = append(all, [2]interface{}{o, mo})
 		}
-		return c17Env(dk, fs, nil)
 	}
+	return sb.String(), all
+}
 
-	// ---- taker: PrepChannelFunding over the whole batch
-	bidByNonce := map[order.Nonce]*order.Bid{}
-	for _, o := range bids {
-		bidByNonce[o.bid.Nonce()] = o.bid
+func c17EnvFor(p *c17Party, all [][2]interface{}) string {
+	var dk, fs []string
+	seenDK := map[string]bool{}
+	for _, e := range all {
+		o, mo := e[0].(order.Order), e[1].(*order.MatchedOrder)
+		loc := o.Details().MultiSigKeyLocator
+		key := c17KeyFor(p.wallet.seed, uint32(loc.Family), loc.Index).SerializeCompressed()
+		d := fmt.Sprintf("%d/%d/%s", uint32(loc.Family), loc.Index, c17Hex(key))
+		if !seenDK[d] {
+			seenDK[d] = true
+			dk = append(dk, d)
+		}
+		w, t := c17Scripts(key, mo.MultiSigKey[:], int64(mo.UnitsFilled.ToSatoshis()))
+		fs = append(fs, fmt.Sprintf("0/%s/%s/%s", c17Hex(key), c17Hex(mo.MultiSigKey[:]), w),
+			fmt.Sprintf("1/%s/%s/%s", c17Hex(key), c17Hex(mo.MultiSigKey[:]), t))
 	}
-	taker.base.peers = [][33]byte{makers[0].node33, makers[1].node33}
+	return c17Env(dk, fs, nil)
+}
+
+func (m *c17Market) fetchBid(n order.Nonce) (order.Order, error) {
+	if b, ok := m.bidByNonce[n]; ok {
+		return b, nil
+	}
+	return nil, clientdb.ErrNoOrder
+}
+
+func c17HeldStr(held map[[32]byte]*lnrpc.ChanPointShim) string {
+	var es []string
+	for pid, s := range held {
+		es = append(es, fmt.Sprintf("%s:%s", c17Hex(pid[:]), c17ShimCols(s)))
+	}
+	sort.Strings(es)
+	return "held=" + c17JoinOrDash(";", es)
+}
+
+// runTaker runs the real PrepChannelFunding of the taker on a proposal and
+// returns the canonical result (registrations of THIS call).
+func (m *c17Market) runTaker(p *c17Proposal) (string, bool) {
+	taker := m.taker
+	shims0, regs0 := len(taker.base.shims), len(taker.regs)
+	taker.ln.ResetConns()
 	wantConns := map[[33]byte]bool{}
-	nRegPairs := 0
-	for _, p := range pairs {
-		if !bids[p.bid].providerOnly {
-			wantConns[makers[asks[p.ask].owner].node33] = true
-			nRegPairs++
+	for _, pr := range p.pairs {
+		if !m.bids[pr.bid].providerOnly {
+			wantConns[m.makers[m.asks[pr.ask].owner].node33] = true
 		}
 	}
-	takerOut := "err"
+	out := "err"
+	accepted := false
 	func() {
 		defer func() {
 			if e := recover(); e != nil {
-				takerOut = "panic"
+				out = "panic"
 			}
 		}()
-		err := taker.mgr.PrepChannelFunding(batchT, func(n order.Nonce) (order.Order, error) {
-			if b, ok := bidByNonce[n]; ok {
-				return b, nil
-			}
-			return nil, clientdb.ErrNoOrder
-		})
-		if err != nil {
+		if err := taker.mgr.PrepChannelFunding(p.batchT, m.fetchBid); err != nil {
 			return
 		}
-		// connection attempts run in goroutines: give them a moment
-		deadline := time.Now().Add(500 * time.Millisecond)
+		accepted = true
+		// connection attempts run in goroutines: give them a (bounded) moment
+		wait := 300 * time.Millisecond
+		if m.f.connTimeouts > 3 {
+			wait = 3 * time.Millisecond // a tree that never connects must not stall the run
+		}
+		deadline := time.Now().Add(wait)
 		for len(taker.ln.Connections()) < len(wantConns) && time.Now().Before(deadline) {
 			time.Sleep(200 * time.Microsecond)
+		}
+		if len(taker.ln.Connections()) < len(wantConns) {
+			m.f.connTimeouts++
 		}
 		var conns []string
 		for k := range taker.ln.Connections() {
 			conns = append(conns, c17Hex(k[:]))
 		}
 		sort.Strings(conns)
-		if len(taker.base.shims) != len(taker.regs) {
-			takerOut = fmt.Sprintf("inconsistent shims=%d regs=%d", len(taker.base.shims), len(taker.regs))
+		shims, regs := taker.base.shims[shims0:], taker.regs[regs0:]
+		if len(shims) != len(regs) {
+			// accepted although lnd took fewer shims than the acceptor was told about
+			out = fmt.Sprintf("accepted-inconsistent shims=%d regs=%d", len(shims), len(regs))
 			return
 		}
 		var es []string
-		for i, sh := range taker.base.shims {
-			s, g := sh.GetChanPointShim(), taker.regs[i]
+		for i, sh := range shims {
+			s, g := sh.GetChanPointShim(), regs[i]
 			n := g.bid.Nonce()
 			es = append(es, fmt.Sprintf("%s:%s:%s:%s:%d:%d:%s:%s", c17Hex(g.pid[:]), c17Hex(s.PendingChanId), c17ShimCols(s),
 				c17Hex(n[:]), int64(g.bid.SelfChanBalance), uint8(g.bid.ChannelType), c17b(g.bid.UnannouncedChannel),
 				c17b(g.bid.ZeroConfChannel)))
 		}
 		sort.Strings(es)
-		takerOut = fmt.Sprintf("ok conns=%s n=%d %s", c17JoinOrDash(",", conns), len(es), c17JoinOrDash(";", es))
+		out = fmt.Sprintf("ok conns=%s n=%d %s", c17JoinOrDash(",", conns), len(es), c17JoinOrDash(";", es))
 	}()
-	encT, allT := encode(batchT, func(n order.Nonce) order.Order { return bidByNonce[n] })
-	r.Emit(fmt.Sprintf("C17 prepb %s %s %d %s %s", c17Hex(taker.node33[:]), txStr, hint, envFor(taker, allT), encT), takerOut)
-	r.Count("prepb/" + strings.Fields(takerOut)[0])
+	return out, accepted
+}
 
-	// ---- makers: BatchChannelSetup over their whole batch
-	for mi, mk := range makers {
-		if len(makerEntries[mi]) == 0 {
+// runMakers runs the real BatchChannelSetup of every maker on a proposal.
+func (m *c17Market) runMakers(p *c17Proposal) {
+	r := m.f.r
+	for mi, mk := range m.makers {
+		if p.batchM[mi] == nil {
 			continue
 		}
+		mk.base.opens = nil
 		askByNonce := map[order.Nonce]*order.Ask{}
-		for _, o := range asks {
+		for _, o := range m.asks {
 			if o.owner == mi {
 				askByNonce[o.ask.Nonce()] = o.ask
-				_ = f.db.SubmitOrder(o.ask)
 			}
-		}
-		batchM, err := f.multiBatch(makerEntries[mi], lease, tx, hint)
-		if err != nil {
-			r.Count("batch/parse-error")
-			continue
 		}
 		out := "err"
 		func() {
@@ -362,7 +411,7 @@ func (f *c17Funding) execBatch(c *c17BatchCase) {
 					out = "panic"
 				}
 			}()
-			if _, err := mk.mgr.BatchChannelSetup(batchM); err != nil {
+			if _, err := mk.mgr.BatchChannelSetup(p.batchM[mi]); err != nil {
 				return
 			}
 			var es []string
@@ -374,82 +423,131 @@ func (f *c17Funding) execBatch(c *c17BatchCase) {
 			sort.Strings(es)
 			out = fmt.Sprintf("ok n=%d %s", len(es), c17JoinOrDash(";", es))
 		}()
-		encM, allM := encode(batchM, func(n order.Nonce) order.Order { return askByNonce[n] })
-		r.Emit(fmt.Sprintf("C17 openb %s %d %s %s", txStr, hint, envFor(mk, allM), encM), out)
+		encM, allM := c17EncodeBatch(p.batchM[mi], func(n order.Nonce) order.Order { return askByNonce[n] })
+		r.Emit(fmt.Sprintf("C17 openb %s %d %s %s", p.txStr, p.hint, c17EnvFor(mk, allM), encM), out)
 		r.Count("openb/" + strings.Fields(out)[0])
 	}
+}
 
-	// ================= oracle: one registration per matched pair, equal to what the maker opens =================
+// comparePairs is the oracle on one proposal: for every matched pair exactly
+// one open request of the maker, and (non provider-only) exactly one shim that
+// lnd holds for the pending id + one acceptor expectation, all agreeing.
+// `lndHeld` = what the taker's lnd holds registered now; `regs` = acceptor
+// notifications to look at (nil: skip the acceptor part).
+func (m *c17Market) comparePairs(p *c17Proposal, lndHeld map[[32]byte]*lnrpc.ChanPointShim, regs []c17Reg,
+	checkRegs bool) []string {
+
+	unit := int64(order.BaseSupplyUnit)
+	txid := p.tx.TxHash()
 	var bad []string
 	chk := func(ok bool, format string, a ...interface{}) {
 		if !ok {
 			bad = append(bad, fmt.Sprintf(format, a...))
 		}
 	}
-	sameNode := map[[2]int]int{}
-	for pi, p := range pairs {
-		a, b := asks[p.ask], bids[p.bid]
+	for pi, pr := range p.pairs {
+		a, b := m.asks[pr.ask], m.bids[pr.bid]
 		an, bn := a.ask.Nonce(), b.bid.Nonce()
 		pid := sha256.Sum256(append(append([]byte{}, an[:]...), bn[:]...))
-		tag := fmt.Sprintf("pair#%d(ask %d of maker %d, bid %d)", pi, p.ask, a.owner, p.bid)
-		sameNode[[2]int{p.bid, a.owner}]++
+		tag := fmt.Sprintf("pair#%d(ask %d of maker %d, bid %d)", pi, pr.ask, a.owner, pr.bid)
 		var opens []*lnrpc.OpenChannelRequest
-		for _, q := range makers[a.owner].base.opens {
+		for _, q := range m.makers[a.owner].base.opens {
 			if bytes.Equal(q.FundingShim.GetChanPointShim().PendingChanId, pid[:]) {
 				opens = append(opens, q)
 			}
 		}
-		var shims []*lnrpc.ChanPointShim
-		for _, s := range taker.base.shims {
-			if bytes.Equal(s.GetChanPointShim().PendingChanId, pid[:]) {
-				shims = append(shims, s.GetChanPointShim())
-			}
-		}
-		var regs []c17Reg
-		for _, g := range taker.regs {
+		sb, held := lndHeld[pid]
+		var rs []c17Reg
+		for _, g := range regs {
 			if g.pid == pid {
-				regs = append(regs, g)
+				rs = append(rs, g)
 			}
 		}
 		chk(len(opens) == 1, "%s: maker sent %d open requests for the pending id", tag, len(opens))
 		if b.providerOnly {
-			chk(len(shims) == 0 && len(regs) == 0, "%s: sidecar provider registered %d shims / %d acceptor expectations",
-				tag, len(shims), len(regs))
+			chk(!held && len(rs) == 0, "%s: sidecar provider registered a shim / %d acceptor expectations", tag, len(rs))
 			continue
 		}
-		chk(len(shims) == 1, "%s: taker registered %d funding shims for the pending id the maker opens", tag, len(shims))
-		chk(len(regs) == 1, "%s: taker's acceptor was told %d times about the pending id the maker opens", tag, len(regs))
-		if len(opens) != 1 || len(shims) != 1 || len(regs) != 1 {
+		chk(held, "%s: the taker's lnd holds no funding shim for the pending id the maker opens", tag)
+		if checkRegs {
+			chk(len(rs) == 1, "%s: taker's acceptor was told %d times about the pending id the maker opens", tag, len(rs))
+		}
+		if len(opens) != 1 || !held {
 			continue
 		}
-		q, sb, g := opens[0], shims[0], regs[0]
+		q := opens[0]
 		sa := q.FundingShim.GetChanPointShim()
-		wantCap := int64(p.units)*unit + int64(b.bid.SelfChanBalance)
-		chk(bytes.Equal(sa.ChanPoint.GetFundingTxidBytes(), txid[:]) && bytes.Equal(sb.ChanPoint.GetFundingTxidBytes(), txid[:]) &&
-			sa.ChanPoint.OutputIndex == sb.ChanPoint.OutputIndex && int(sa.ChanPoint.OutputIndex) < len(tx.TxOut) &&
-			bytes.Equal(tx.TxOut[sa.ChanPoint.OutputIndex].PkScript, p.script), "%s: funding outpoint differs / is not the funding output", tag)
+		wantCap := int64(pr.units)*unit + int64(b.bid.SelfChanBalance)
+		chk(bytes.Equal(sa.ChanPoint.GetFundingTxidBytes(), txid[:]) && int(sa.ChanPoint.OutputIndex) < len(p.tx.TxOut) &&
+			bytes.Equal(p.tx.TxOut[sa.ChanPoint.OutputIndex].PkScript, pr.script), "%s: maker's outpoint is not the funding output", tag)
+		chk(bytes.Equal(sb.ChanPoint.GetFundingTxidBytes(), sa.ChanPoint.GetFundingTxidBytes()) &&
+			sa.ChanPoint.OutputIndex == sb.ChanPoint.OutputIndex,
+			"%s: funding outpoint: maker %x:%d, shim held by the taker's lnd %x:%d", tag, sa.ChanPoint.GetFundingTxidBytes()[:4],
+			sa.ChanPoint.OutputIndex, sb.ChanPoint.GetFundingTxidBytes()[:4], sb.ChanPoint.OutputIndex)
 		chk(sa.Amt == wantCap && sb.Amt == wantCap && q.LocalFundingAmount == wantCap, "%s: capacity maker %d taker %d want %d", tag, sa.Amt, sb.Amt, wantCap)
 		chk(bytes.Equal(sa.LocalKey.RawKeyBytes, sb.RemoteKey) && bytes.Equal(sa.RemoteKey, sb.LocalKey.RawKeyBytes), "%s: keys not mirrored", tag)
-		chk(sa.ThawHeight == sb.ThawHeight, "%s: thaw height maker %d taker %d", tag, sa.ThawHeight, sb.ThawHeight)
-		chk(sa.Musig2 == sb.Musig2 && q.CommitmentType == p.commit, "%s: commitment type %v / musig2 %v %v", tag, q.CommitmentType, sa.Musig2, sb.Musig2)
+		chk(sa.ThawHeight == sb.ThawHeight, "%s: thaw height maker %d, shim held by the taker's lnd %d", tag, sa.ThawHeight, sb.ThawHeight)
+		chk(sa.Musig2 == sb.Musig2 && q.CommitmentType == pr.commit, "%s: commitment type %v (orders imply %v) / musig2 %v %v", tag,
+			q.CommitmentType, pr.commit, sa.Musig2, sb.Musig2)
 		chk(q.PushSat == int64(b.bid.SelfChanBalance) && q.Private == b.bid.UnannouncedChannel && q.ZeroConf == b.bid.ZeroConfChannel,
 			"%s: push/private/zero-conf of the request are not the bid's", tag)
-		chk(bytes.Equal(q.NodePubkey, taker.node33[:]), "%s: channel opened to another node", tag)
-		chk(g.bid.Nonce() == bn && g.bid.SelfChanBalance == b.bid.SelfChanBalance &&
-			g.bid.UnannouncedChannel == b.bid.UnannouncedChannel && g.bid.ZeroConfChannel == b.bid.ZeroConfChannel &&
-			g.bid.ChannelType == b.bid.ChannelType, "%s: acceptor expectation is not the bid", tag)
+		chk(bytes.Equal(q.NodePubkey, m.taker.node33[:]), "%s: channel opened to another node", tag)
+		if checkRegs && len(rs) == 1 {
+			g := rs[0]
+			chk(g.bid.Nonce() == bn && g.bid.SelfChanBalance == b.bid.SelfChanBalance &&
+				g.bid.UnannouncedChannel == b.bid.UnannouncedChannel && g.bid.ZeroConfChannel == b.bid.ZeroConfChannel &&
+				g.bid.ChannelType == b.bid.ChannelType, "%s: acceptor expectation is not the bid", tag)
+		}
 	}
-	chk(takerOut == "err" || takerOut == "panic" || len(taker.base.shims) == nRegPairs,
-		"taker registered %d shims for %d matched pairs", len(taker.base.shims), nRegPairs)
+	return bad
+}
+
+// execBatch runs the real PrepChannelFunding of the taker and the real
+// BatchChannelSetup of every maker over one whole batch.
+func (f *c17Funding) execBatch(c *c17BatchCase) {
+	r := f.r
+	rng := rand.New(rand.NewSource(c.Seed))
+	r.Evaluations++
+	r.Count("batch/cases")
+	m := f.newMarket(rng, 3, true)
+	hint := []uint32{0, 700000 + uint32(rng.Intn(300000)), rng.Uint32()}[rng.Intn(3)]
+	p, err := m.propose(rng, m.pairs, hint, uint32(c.Seed))
+	if err != nil {
+		r.Count("batch/parse-error")
+		return
+	}
+	takerOut, _ := m.runTaker(p)
+	encT, allT := c17EncodeBatch(p.batchT, func(n order.Nonce) order.Order { return m.bidByNonce[n] })
+	r.Emit(fmt.Sprintf("C17 prepb %s %s %d %s %s", c17Hex(m.taker.node33[:]), p.txStr, hint, c17EnvFor(m.taker, allT), encT), takerOut)
+	r.Count("prepb/" + strings.Fields(takerOut)[0])
+	m.runMakers(p)
+
+	bad := m.comparePairs(p, m.taker.base.held, m.taker.regs, true)
+	nRegPairs, sameNode := 0, map[[2]int]int{}
+	wantConns := map[[33]byte]bool{}
+	for _, pr := range p.pairs {
+		sameNode[[2]int{pr.bid, m.asks[pr.ask].owner}]++
+		if !m.bids[pr.bid].providerOnly {
+			nRegPairs++
+			wantConns[m.makers[m.asks[pr.ask].owner].node33] = true
+		}
+	}
 	if strings.HasPrefix(takerOut, "ok ") {
-		got := taker.ln.Connections()
+		if len(m.taker.base.shims) != nRegPairs {
+			bad = append(bad, fmt.Sprintf("taker registered %d shims for %d matched pairs", len(m.taker.base.shims), nRegPairs))
+		}
+		got := m.taker.ln.Connections()
 		okc := len(got) == len(wantConns)
 		for k := range wantConns {
 			if _, ok := got[k]; !ok {
 				okc = false
 			}
 		}
-		chk(okc, "connection attempts to %d nodes, want the %d distinct maker nodes", len(got), len(wantConns))
+		if !okc {
+			bad = append(bad, fmt.Sprintf("connection attempts to %d nodes, want the %d distinct maker nodes", len(got), len(wantConns)))
+		}
+	} else {
+		bad = append(bad, "taker refused an honest first proposal: "+takerOut)
 	}
 	multi := false
 	for _, n := range sameNode {
@@ -460,18 +558,123 @@ func (f *c17Funding) execBatch(c *c17BatchCase) {
 	if multi {
 		r.Count("batch/bid-with-2-asks-of-one-node")
 	}
-	if len(pairs) > len(bids) {
+	if len(p.pairs) > len(m.bids) {
 		r.Count("batch/multi-match")
 	}
 	if len(bad) > 0 {
-		f.r.Count("oracle/violation")
-		f.r.Violate("whole batch: "+strings.Join(bad, "; "), "C17/batch-pair", c)
+		r.Count("oracle/violation")
+		r.Violate("whole batch: "+strings.Join(bad, "; "), "C17/batch-pair", c)
 	} else {
 		r.Count("batch/agree")
-		r.Distinct(fmt.Sprintf("batch|%d|%d|%d|%d", c.Seed, len(pairs), len(bids), len(asks)))
+		r.Distinct(fmt.Sprintf("batch|%d|%d|%d|%d", c.Seed, len(p.pairs), len(m.bids), len(m.asks)))
 		if multi {
-			r.Sample(map[string]interface{}{"batch_seed": c.Seed, "pairs": len(pairs), "bids": len(bids), "asks": len(asks),
+			r.Sample(map[string]interface{}{"batch_seed": c.Seed, "pairs": len(p.pairs), "bids": len(m.bids), "asks": len(m.asks),
 				"prep": takerOut[:min(len(takerOut), 300)]})
 		}
 	}
+}
+
+// c17ReproCase: a batch is proposed, cleaned up (RemovePendingBatchArtifacts,
+// possibly with failing / skipped shim cancels) and proposed again with
+// another transaction and height hint. Generated from its seed.
+type c17ReproCase struct {
+	Kind string `json:"kind"` // "repro"
+	Seed int64  `json:"seed"`
+}
+
+func (f *c17Funding) execRepro(c *c17ReproCase) {
+	r := f.r
+	rng := rand.New(rand.NewSource(c.Seed))
+	r.Evaluations++
+	r.Count("repro/cases")
+	m := f.newMarket(rng, 2, false)
+	taker := m.taker
+	for _, o := range m.bids {
+		_ = f.db.SubmitOrder(o.bid) // RemovePendingBatchArtifacts reads our orders from the DB
+	}
+	encOf := func(p *c17Proposal) (string, string) {
+		enc, all := c17EncodeBatch(p.batchT, func(n order.Nonce) order.Order { return m.bidByNonce[n] })
+		return enc, c17EnvFor(taker, all)
+	}
+	r.Emit("C17 lreset", "ok")
+
+	hint := 700000 + uint32(rng.Intn(300000))
+	cur := m.pairs
+	rounds := 2 + rng.Intn(2)
+	var hist []string
+	for round := 1; round <= rounds; round++ {
+		p, err := m.propose(rng, cur, hint, uint32(c.Seed)+uint32(round)*7919)
+		if err != nil {
+			r.Count("batch/parse-error")
+			return
+		}
+		out, accepted := m.runTaker(p)
+		enc, env := encOf(p)
+		real := out
+		if strings.HasPrefix(out, "ok ") {
+			real = out + " " + c17HeldStr(taker.base.held)
+		}
+		r.Emit(fmt.Sprintf("C17 lprepb %s %s %d %s %s", c17Hex(taker.node33[:]), p.txStr, p.hint, env, enc), real)
+		r.Count(fmt.Sprintf("repro/round%d/%s", min(round, 2), strings.Fields(out)[0]))
+		hist = append(hist, fmt.Sprintf("proposal %d (hint %d, %d pairs): %s", round, p.hint, len(p.pairs), strings.Fields(out)[0]))
+		if !accepted {
+			// the bidder rejects this proposal: nothing has to agree. (What a
+			// failed PrepChannelFunding leaves registered depends on Go's
+			// map order, so the sequence ends here.)
+			if round == 1 {
+				r.Violate("taker refused an honest first proposal: "+out, "C17/repro", c)
+			}
+			r.Count("repro/rejected-after-stale-shim")
+			return
+		}
+		// the bidder accepted: what its lnd holds now must be what the makers open
+		m.runMakers(p)
+		if bad := m.comparePairs(p, taker.base.held, taker.regs, false); len(bad) > 0 {
+			r.Count("oracle/violation")
+			r.Violate(fmt.Sprintf("re-proposed batch accepted by the bidder (%s) but ", strings.Join(hist, ", "))+
+				strings.Join(bad, "; "), "C17/repro", c)
+			return
+		}
+		r.Count("repro/accepted-agree")
+		if round == rounds {
+			break
+		}
+		// ---- between two proposals: cleanup of the pending batch
+		taker.base.cancelFail = map[[32]byte]bool{}
+		mode := rng.Intn(4)
+		switch mode {
+		case 0: // every cancel succeeds
+			r.Count("repro/cleanup-ok")
+		case 1, 2: // some cancels fail (RPC error, only logged)
+			r.Count("repro/cleanup-cancel-fault")
+			for pid := range taker.base.held {
+				if rng.Intn(2) == 0 || len(taker.base.cancelFail) == 0 {
+					taker.base.cancelFail[pid] = true
+				}
+			}
+		case 3: // cleanup skipped altogether
+			r.Count("repro/cleanup-skipped")
+		}
+		if mode != 3 {
+			if err := taker.mgr.RemovePendingBatchArtifacts(p.batchT.MatchedOrders, p.batchT.BatchTX); err != nil {
+				r.Count("repro/cleanup-error")
+			}
+			var fails []string
+			for pid := range taker.base.cancelFail {
+				fails = append(fails, c17Hex(pid[:]))
+			}
+			sort.Strings(fails)
+			r.Emit(fmt.Sprintf("C17 lcancel %s %s", c17JoinOrDash(",", fails), enc), "ok "+c17HeldStr(taker.base.held))
+			hist = append(hist, fmt.Sprintf("cleanup with %d failing shim cancels", len(fails)))
+		} else {
+			hist = append(hist, "cleanup skipped")
+		}
+		taker.base.cancelFail = nil
+		// the next proposal: maybe one pair dropped, new tx, later hint
+		if len(cur) > 1 && rng.Intn(3) == 0 {
+			cur = cur[:len(cur)-1]
+		}
+		hint += uint32(1 + rng.Intn(6))
+	}
+	r.Distinct(fmt.Sprintf("repro|%d", c.Seed))
 }
